@@ -846,13 +846,22 @@ void RationalVisitor::bvisit(const Constant &x)
 
 void RationalVisitor::bvisit(const Add &x)
 {
+    // rational + rational = rational, rational + irrational = irrational,
+    // irrational + irrational = indeterminate
     tribool b = tribool::tritrue;
     for (const auto &arg : x.get_args()) {
         arg->accept(*this);
-        b = andwk_tribool(b, is_rational_);
-        if (is_indeterminate(b))
+        if (is_false(b) and is_false(is_rational_)) {
+            is_rational_ = tribool::indeterminate;
             return;
+        }
+        b = andwk_tribool(b, is_rational_);
+        if (is_indeterminate(b)) {
+            is_rational_ = b;
+            return;
+        }
     }
+    is_rational_ = b;
 }
 
 tribool RationalVisitor::apply(const Basic &b)
